@@ -104,6 +104,11 @@ fn experiments() -> Vec<Exp> {
             v.push(Exp::RandomBits { p: Some(p), via_generator: true, len });
         }
     }
+    for n in [1usize, 2, 3, 5, 8] {
+        v.push(Exp::Gene { source: 3, n, close: None });
+        v.push(Exp::Gene { source: 4, n, close: None });
+    }
+    v.push(Exp::Gene { source: 3, n: 4, close: Some(0.3) });
     for source in 0..3u8 {
         for n in 1..=8usize {
             v.push(Exp::Gene { source, n, close: None });
@@ -335,13 +340,28 @@ fn run_experiment(exp: &Exp, trials: u64, seed: u64) -> Option<Vec<Cell_>> {
                         _ => arr!(0, 1, 2, 3, 4, 5, 6, 7),
                     }
                 }
-                _ => {
+                2 => {
                     let slice: &[PushInstruction] = &items;
                     let d = IntoDistribution::<PushInstruction>::into_distribution(slice).ok()?;
                     let gg = match close {
                         Some(c) => d.into_gene_generator_with_close_probability(*c),
                         None => d.into_gene_generator(),
                     };
+                    sample_genes(&gg, trials, &mut rng, n)
+                }
+                3 => {
+                    // the BORROWING constructors (the by-reference flavour must agree with the by-value one)
+                    let d = IntoDistribution::<PushInstruction>::into_distribution(items).ok()?;
+                    let gg = match close {
+                        Some(c) => d.to_gene_generator_with_close_probability(*c),
+                        None => d.to_gene_generator(),
+                    };
+                    sample_genes(&gg, trials, &mut rng, n)
+                }
+                _ => {
+                    // the inherent constructor
+                    let d = IntoDistribution::<PushInstruction>::into_distribution(items).ok()?;
+                    let gg = GeneGenerator::with_uniform_close_probability(d);
                     sample_genes(&gg, trials, &mut rng, n)
                 }
             };
